@@ -11,7 +11,7 @@ namespace Replicat.Retry
 
 /-- the exceptions attempts raise: OSError for the local adapter, transport errors and statuses (through B2's hook) otherwise -/
 def ErrClass (b : Backend) (cfg : Cfg) (S : Nat → Prop) (e : Err) : Prop :=
-  (b = .local ∧ e = .os) ∨ (b ≠ .local ∧ HttpErr cfg S e)
+  (b = .local ∧ ∃ k, e = .os k) ∨ (b ≠ .local ∧ HttpErr cfg S e)
 
 /-- how `requires_auth` and the response hook are set up: S3 / local have neither, B2 has both -/
 def AuthSound (b : Backend) (cfg : Cfg) (ra : Bool) : Prop :=
@@ -44,7 +44,7 @@ theorem policy_masked (b : Backend) (cfg : Cfg) (dec ra : Bool) (hs : PolSound c
     (he : ErrClass b cfg (NotGiveup cfg) e) (tries rounds : Nat) (ht : tries < cfg.budget) (hA : reauthAllowed cfg rounds = true) :
     (∃ x, policy b cfg dec ra e tries rounds = .retry x) ∨ (∃ x, policy b cfg dec ra e tries rounds = .reauth x) := by
   have hne : tries ≠ cfg.budget := by omega
-  rcases he with ⟨rfl, rfl⟩ | ⟨hb, he⟩
+  rcases he with ⟨rfl, k, rfl⟩ | ⟨hb, he⟩
   · rw [policy_local_os cfg dec ra hs, if_neg hne]; exact Or.inl ⟨false, rfl⟩
   · rcases he with rfl | ⟨code, r, hS, rfl⟩
     · rw [policy_http_transport b hb cfg dec ra hs, if_neg hne]; exact Or.inl ⟨false, rfl⟩
@@ -80,7 +80,7 @@ def NoReauthCode (b : Backend) (cfg : Cfg) (code : Nat) : Prop :=
 theorem policy_at_limit (b : Backend) (cfg : Cfg) (dec ra : Bool) (hs : PolSound cfg dec) (ha : AuthSound b cfg ra) (e : Err)
     (he : ErrClass b cfg (NoReauthCode b cfg) e) (rounds : Nat) :
     ∃ e' s, policy b cfg dec ra e cfg.budget rounds = .raise e' s := by
-  rcases he with ⟨rfl, rfl⟩ | ⟨hb, he⟩
+  rcases he with ⟨rfl, k, rfl⟩ | ⟨hb, he⟩
   · rw [policy_local_os cfg dec ra hs, if_pos rfl]; exact ⟨_, _, rfl⟩
   · rcases he with rfl | ⟨code, r, hS, rfl⟩
     · rw [policy_http_transport b hb cfg dec ra hs, if_pos rfl]; exact ⟨_, _, rfl⟩
